@@ -65,7 +65,9 @@ def b_stop(job):
         k = rng.choice([2, 3, 3])
         lits = [tb.app("not", [a]) if rng.random() < 0.5 else a for a in rng.sample(atoms, min(k, len(atoms)))]
         body.append({"c": "assert", "t": tb.app("or", lits) if len(lits) > 1 else lits[0], "nm": "", "inner": []})
-    pre = G.preamble(g, B._opts("models") if not g.arr else [])
+    # non-incremental mode runs variable elimination and subsumption before the search: more poll points, other code
+    o_ = (B._opts("models") if not g.arr else []) + (B._opts("noinc") if job.get("noinc") else [])
+    pre = G.preamble(g, o_)
     fam = C.Family(g)
     base_cmds = pre + body + [{"c": "check-sat"}] + ([{"c": "get-model"}] if not g.arr else [])
     base = fam.add_run("s", "c0", "main", base_cmds)
